@@ -25,7 +25,7 @@ from ..kernels import (
     std_overrides,
 )
 from ..oracle import Oracle, get_oracle, jet_symbol, oracle_op, to_jets
-from ..stencil import EPS, jets_in, kernel_table, position_subs, residual_orders, substitute_taylor
+from ..stencil import piecewise_cases, resolve_piecewise, EPS, jets_in, kernel_table, position_subs, residual_orders, substitute_taylor
 
 GRIDS = {
     # grid class -> (oracle system, list of numbers of axes)
@@ -148,6 +148,9 @@ def check_kernel_against_oracle(kernel, grid, sysname, n_axes, opname, order_nee
             results.append((comp, False, "component is never written by the kernel"))
             continue
         term = table.comps[comp]
+        special = piecewise_cases(term, table.loop_syms) if sp.sympify(term).has(sp.Piecewise) else []
+        boundary_terms = [(ls, v, resolve_piecewise(term, {ls: v})) for ls, v in special]
+        term = resolve_piecewise(term) if special else term
         st = substitute_taylor(term, table.loop_syms, hs, TAYLOR_ORDER)
         st = st.subs(pos)
         oj = sp.sympify(to_jets(want[comp], orc))
@@ -167,6 +170,28 @@ def check_kernel_against_oracle(kernel, grid, sysname, n_axes, opname, order_nee
             detail["stencil"] = str(term)[:400]
             detail["continuum"] = str(want[comp])
         results.append((comp, ok, detail))
+        # cells singled out by element stores into coefficient arrays (e.g. `factor_l[0] = 0`): the stencil of that very cell,
+        # with exact samples in the virtual points, must be consistent to the same order at the cell's own position
+        for ls, v, bterm in boundary_terms:
+            k = list(table.loop_syms).index(ls)
+            bst = substitute_taylor(bterm, table.loop_syms, hs, TAYLOR_ORDER).subs(pos)
+            bst = apply_assumptions(bst, subst)
+            lo_k = grid._attrs["axes_bounds"][k][0]
+            # padded index v <-> centre lo + (v - 1/2) h ; indices counted from the end refer to the upper bound
+            N_k = grid._attrs["shape"][k]
+            if sp.sympify(v).has(N_k):
+                hi_sym = sp.Symbol(f"x_max{k}", positive=True)
+                xpos = hi_sym - (N_k - sp.sympify(v) + sp.Rational(1, 2)) * hs[k]
+            else:
+                xpos = lo_k + (sp.sympify(v) - sp.Rational(1, 2)) * hs[k]
+            bres_st, bres_oj = bst.subs(X[k], xpos), oj.subs(X[k], xpos)
+            bval, blead = residual_orders(bres_st, bres_oj, hs)
+            bok = bval >= order_needed
+            bdetail = {"cell": f"{ls} = {v}", "valuation": str(bval), "needed": order_needed}
+            if not bok:
+                bdetail["leading_residual"] = str(blead)[:300]
+                bdetail["stencil"] = str(bterm)[:300]
+            results.append(((*comp, f"cell[{ls}={v}]"), bok, bdetail))
     extra_comps = set(table.comps) - set(expected_comps)
     if extra_comps:
         problems.append(f"kernel writes components {sorted(extra_comps)} outside rank_out={rank_out}, dim={dim}")
@@ -534,6 +559,9 @@ def _near_axis_job(job):
         fsub[f] = fields[comp]
     results = []
     for comp, term in table.comps.items():
+        if sp.sympify(term).has(sp.Piecewise):
+            # cells singled out by element stores are judged by the per-cell rows of the consistency clause
+            term = resolve_piecewise(term)
         st = sp.sympify(term)
         repl = {}
         for c in st.atoms(AppliedUndef):
